@@ -5,11 +5,18 @@ package consensus
 // >= 2C+1 distinct endorsers; >= 2C+1 distinct committers; every selected index is a member of the
 // configuration; same (seed, configuration) twice => same output (also on a deep copy; inputs are
 // not modified); getParticipantSelectionSeed is a function of (height, proposer, vrf value).
+// Retained selections (TestC29_RetainedSelections): the selections of 2..20 rounds (other seeds /
+// heights, other configurations incl. disjoint peer sets) are computed back to back and KEPT as
+// returned (as Server.currentParticipantConfig keeps them) next to a private deep copy taken at
+// return time; after all calls every kept selection must still equal its copy, must still be
+// well-formed for its OWN configuration, and recomputing round i after the other rounds must give
+// the copy again (the selection is a function of (seed, configuration) only, not of call history).
 
 import (
 	"fmt"
 	"math"
 	"reflect"
+	"strings"
 	"testing"
 
 	"github.com/ontio/ontology/common"
@@ -22,7 +29,7 @@ import (
 	"verifharness/internal/harn"
 )
 
-const c29Rule = "C in 1..5, N in 3C+1..3C+6, distinct peer indices (1..N | arbitrary uint32 < MaxUint32 | edge values), position table either any table over the members (length 2N..16N, sometimes up to 700 to cross the 512-draw cap; number of distinct members in the table biased to 1,3C-1,3C,3C+1,N; uniform or skewed slot weights) or derived by the real GenesisChainConfig from generated stakes (ties, zeros, heavy skew, more candidates than K); 64-byte seeds random/all-zero/all-FF/one repeated byte/sparse or produced by getParticipantSelectionSeed; non-trivial = the table reaches <= 3C distinct members so the fill-from-Peers path decides well-formedness, or N = 3C+1 (no slack), or a degenerate seed; distinct = different (C, indices, table, seed)"
+const c29Rule = "C in 1..5, N in 3C+1..3C+6, distinct peer indices (1..N | arbitrary uint32 < MaxUint32 | edge values), position table either any table over the members (length 2N..16N, sometimes up to 700 to cross the 512-draw cap; number of distinct members in the table biased to 1,3C-1,3C,3C+1,N; uniform or skewed slot weights) or derived by the real GenesisChainConfig from generated stakes (ties, zeros, heavy skew, more candidates than K); 64-byte seeds random/all-zero/all-FF/one repeated byte/sparse or produced by getParticipantSelectionSeed; non-trivial = the table reaches <= 3C distinct members so the fill-from-Peers path decides well-formedness, or N = 3C+1 (no slack), or a degenerate seed; distinct = different (C, indices, table, seed). Retained-selection sequences: 1..4 configurations (C in 1..4, N in 3C+1..3C+5; peer sets identical / overlapping / pairwise disjoint; tables reaching all members or <= 3C of them) and 2..20 rounds computed back to back (each round: one of the configurations - a configuration change in about every third round - with a fresh seed, a seed derived by getParticipantSelectionSeed from a generated (height, proposer, vrf value), or the seed of an earlier round), every returned selection kept as returned plus a private deep copy taken at return time; after all rounds each kept selection must equal its copy, be well-formed for its own configuration and be reproduced by recomputing that round; non-trivial = at least two rounds with different selections; distinct = different (configurations, round sequence)"
 
 type c29Out struct{ P, E, K []uint32 }
 
@@ -335,4 +342,267 @@ func TestC29_GenesisTableAndSeed(t *testing.T) {
 		ev.Class("genesis-table")
 		ev.Case(fill || k == 3*c+1, shortDesc(desc))
 	})
+}
+
+// ---------------------------------------------------------------------------------------------
+// retained selections of several rounds
+
+type c29Round struct {
+	cfg   int
+	chain *vconfig.ChainConfig
+	vrf   vconfig.VRFValue
+	blk   uint32
+	kept  c29Out // exactly the slices calcParticipantPeers returned (never touched by the harness)
+	snap  c29Out // private deep copy taken at return time
+}
+
+func (o c29Out) clone() c29Out {
+	return c29Out{append([]uint32{}, o.P...), append([]uint32{}, o.E...), append([]uint32{}, o.K...)}
+}
+
+func (o c29Out) String() string {
+	return fmt.Sprintf("P=[%s] E=[%s] K=[%s]", u32s(o.P), u32s(o.E), u32s(o.K))
+}
+
+// c29WellFormed: the structural part of the property for one selection and its own configuration.
+func c29WellFormed(chain *vconfig.ChainConfig, o c29Out) error {
+	c := int(chain.C)
+	members := map[uint32]bool{}
+	for _, p := range chain.Peers {
+		members[p.Index] = true
+	}
+	if len(o.P) != c+1 || distinctCount(o.P) != c+1 {
+		return fmt.Errorf("proposers %v: want exactly C+1=%d distinct peers", o.P, c+1)
+	}
+	if distinctCount(o.E) < 2*c+1 {
+		return fmt.Errorf("endorsers %v: %d distinct, want >= 2C+1=%d", o.E, distinctCount(o.E), 2*c+1)
+	}
+	if distinctCount(o.K) < 2*c+1 {
+		return fmt.Errorf("committers %v: %d distinct, want >= 2C+1=%d", o.K, distinctCount(o.K), 2*c+1)
+	}
+	for _, set := range [][]uint32{o.P, o.E, o.K} {
+		for _, x := range set {
+			if !members[x] {
+				return fmt.Errorf("selected peer %d is not a member of the configuration (members [%s])", x, u32s(sortedU32(members)))
+			}
+		}
+	}
+	return nil
+}
+
+// genC29Chain draws one configuration over the given member indices.
+func genC29Chain(t *rapid.T, c int, idx []uint32, view uint32) *vconfig.ChainConfig {
+	n := len(idx)
+	peers := make([]*vconfig.PeerConfig, n)
+	for i, x := range idx {
+		peers[i] = &vconfig.PeerConfig{Index: x, ID: fmt.Sprintf("peer-%d", x)}
+	}
+	var d int
+	switch rapid.IntRange(0, 5).Draw(t, "dKind") {
+	case 0:
+		d = 3 * c
+	case 1:
+		d = rapid.IntRange(1, n).Draw(t, "d")
+	default:
+		d = n
+	}
+	sub := rapid.Permutation(idx).Draw(t, "subset")[:d]
+	l := rapid.IntRange(2*n, 8*n).Draw(t, "L")
+	table := append(make([]uint32, 0, l), sub...)
+	for _, k := range rapid.SliceOfN(rapid.IntRange(0, d-1), l-d, l-d).Draw(t, "slots") {
+		table = append(table, sub[k])
+	}
+	if rapid.Bool().Draw(t, "shuffle") {
+		table = rapid.Permutation(table).Draw(t, "table")
+	}
+	return &vconfig.ChainConfig{Version: 1, View: view, N: uint32(n), C: uint32(c), Peers: peers, PosTable: table}
+}
+
+func TestC29_RetainedSelections(t *testing.T) {
+	ev := harn.For("C29").Rule(c29Rule)
+	ev.Assume("a selection returned by calcParticipantPeers is kept by its caller (Server.currentParticipantConfig) while later rounds are computed; calls are sequential (the server computes them under metaLock)")
+	ev.Floor("seq:different-selections", "", 0.60)
+	ev.Floor("seq:config-change", "", 0.25)
+	ev.Floor("seq:disjoint-configs", "", 0.10)
+	ev.Floor("seq:same-config-other-seed", "", 0.40)
+	harn.Check(t, 6000, 600000, func(t *rapid.T) {
+		// configurations
+		nCfg := rapid.SampledFrom([]int{1, 2, 2, 3, 4}).Draw(t, "nCfg")
+		rel := rapid.SampledFrom([]string{"disjoint", "disjoint", "same", "overlap"}).Draw(t, "peerSets")
+		chains := make([]*vconfig.ChainConfig, nCfg)
+		var cdesc []string
+		var firstIdx []uint32
+		plainIdx := rapid.Bool().Draw(t, "plainIdx")
+		for k := range chains {
+			c := rapid.IntRange(1, 4).Draw(t, "C")
+			n := 3*c + 1 + rapid.IntRange(0, 4).Draw(t, "slack")
+			var idx []uint32
+			switch {
+			case k == 0 || rel == "disjoint":
+				if plainIdx {
+					for i := 1; i <= n; i++ {
+						idx = append(idx, uint32(k)*100+uint32(i))
+					}
+				} else {
+					// arbitrary indices inside a per-configuration residue class mod 4: disjoint across k
+					for _, x := range genIndices(t, n) {
+						idx = append(idx, x/4*4+uint32(k))
+					}
+					idx = dedupFill(idx, n, uint32(k))
+				}
+			case rel == "same": // same members, possibly another C and another table
+				idx = append(idx, firstIdx...)
+				n = len(idx)
+				c = rapid.IntRange(1, min(4, (n-1)/3)).Draw(t, "Csame")
+			default: // overlap: about half of the first configuration's members plus new ones
+				for i, x := range firstIdx {
+					if i%2 == 0 && len(idx) < n-1 {
+						idx = append(idx, x)
+					}
+				}
+				for i := uint32(1); len(idx) < n; i++ {
+					idx = dedupFill(append(idx, 7000+uint32(k)*400+i*4), len(idx)+1, 0)
+				}
+			}
+			if k == 0 {
+				firstIdx = idx
+			}
+			chains[k] = genC29Chain(t, c, idx, uint32(k+1))
+			cdesc = append(cdesc, fmt.Sprintf("cfg%d{C=%d N=%d idx=[%s] table=[%s]}", k, c, len(idx), u32s(idx), u32s(chains[k].PosTable)))
+		}
+		snaps := make([]*vconfig.ChainConfig, nCfg)
+		for k, ch := range chains {
+			snaps[k] = copyChain(ch)
+		}
+		// rounds, back to back
+		nRounds := 2 + rapid.IntRange(0, 18).Draw(t, "rounds")
+		var rounds []*c29Round
+		var rdesc []string
+		cur := 0
+		for i := 0; i < nRounds; i++ {
+			if nCfg > 1 && rapid.IntRange(0, 2).Draw(t, "change") == 0 {
+				cur = rapid.IntRange(0, nCfg-1).Draw(t, "cfg")
+			}
+			r := &c29Round{cfg: cur, chain: chains[cur], blk: rapid.Uint32Range(1, math.MaxUint32-1).Draw(t, "blk")}
+			switch sk := rapid.IntRange(0, 9).Draw(t, "seedKind"); {
+			case sk == 0 && len(rounds) > 0: // the seed of an earlier round again (maybe under another configuration)
+				r.vrf = rounds[rapid.IntRange(0, len(rounds)-1).Draw(t, "again")].vrf
+			case sk <= 4: // the real seed function over the previous block of that height
+				vv := rapid.SliceOfN(rapid.Byte(), 0, 70).Draw(t, "vrfValue")
+				r.vrf = vbft.VerifGetParticipantSelectionSeed(&vbft.Block{Block: &types.Block{Header: &types.Header{Height: r.blk - 1}},
+					Info: &vconfig.VbftBlockInfo{Proposer: rapid.Uint32().Draw(t, "prevProposer"), VrfValue: vv}})
+			default:
+				r.vrf = genVrf().Draw(t, "vrf")
+			}
+			desc := fmt.Sprintf("round %d (cfg%d blk=%d seed=%x)", i, r.cfg, r.blk, r.vrf[:8])
+			func() {
+				defer func() {
+					if p := recover(); p != nil {
+						t.Fatalf("calcParticipantPeers panicked (%v) in %s; %s", p, desc, strings.Join(cdesc, " "))
+					}
+				}()
+				cfg := &vbft.BlockParticipantConfig{BlockNum: r.blk, Vrf: r.vrf, ChainConfig: r.chain}
+				r.kept.P, r.kept.E, r.kept.K = vbft.VerifCalcParticipantPeers(cfg, r.chain)
+			}()
+			r.snap = r.kept.clone()
+			if err := c29WellFormed(r.chain, r.snap); err != nil {
+				t.Fatalf("%s: fresh selection is malformed: %v; %s", desc, err, strings.Join(cdesc, " "))
+			}
+			rounds = append(rounds, r)
+			rdesc = append(rdesc, fmt.Sprintf("%d:cfg%d/%x", i, r.cfg, r.vrf[:6]))
+		}
+		full := fmt.Sprintf("retained %s rounds=[%s] %s", rel, strings.Join(rdesc, " "), strings.Join(cdesc, " "))
+		// 1. every kept selection is still what was returned, and still well-formed for its own configuration
+		for i, r := range rounds {
+			if !reflect.DeepEqual(r.kept, r.snap) {
+				t.Fatalf("the selection of round %d (cfg%d, seed %x) was {%v} when calcParticipantPeers returned it and is {%v} after %d later call(s): a kept selection must not be rewritten by later rounds; %s",
+					i, r.cfg, r.vrf[:8], r.snap, r.kept, len(rounds)-1-i, full)
+			}
+			if err := c29WellFormed(r.chain, r.kept); err != nil {
+				t.Fatalf("the kept selection of round %d is no longer well-formed for its own configuration cfg%d: %v; %s", i, r.cfg, err, full)
+			}
+		}
+		for k := range chains {
+			if !reflect.DeepEqual(snaps[k], chains[k]) {
+				t.Fatalf("calcParticipantPeers modified configuration cfg%d; %s", k, full)
+			}
+		}
+		// 2. determinism across call history: recomputing round i after all other rounds (in generated order)
+		for _, i := range rapid.Permutation(seqInts(len(rounds))).Draw(t, "recomputeOrder") {
+			r := rounds[i]
+			again := c29Run(t, r.chain, r.vrf, full).clone()
+			if !reflect.DeepEqual(again, r.snap) {
+				t.Fatalf("recomputing round %d (cfg%d, seed %x) after other rounds gives {%v}, the first computation gave {%v}: not a function of (seed, configuration); %s", i, r.cfg, r.vrf[:8], again, r.snap, full)
+			}
+		}
+		for i, r := range rounds { // recomputation must not have disturbed the kept ones either
+			if !reflect.DeepEqual(r.kept, r.snap) {
+				t.Fatalf("the kept selection of round %d was rewritten while other rounds were recomputed: was {%v}, is {%v}; %s", i, r.snap, r.kept, full)
+			}
+		}
+		// classification
+		distinctSel := map[string]bool{}
+		cfgUsed := map[int]bool{}
+		sameCfgOtherSeed, fillRound := false, false
+		seedsOf := map[int]map[vconfig.VRFValue]bool{}
+		for _, r := range rounds {
+			distinctSel[r.snap.String()] = true
+			cfgUsed[r.cfg] = true
+			if seedsOf[r.cfg] == nil {
+				seedsOf[r.cfg] = map[vconfig.VRFValue]bool{}
+			}
+			seedsOf[r.cfg][r.vrf] = true
+			if len(seedsOf[r.cfg]) > 1 {
+				sameCfgOtherSeed = true
+			}
+			if reachable(r.vrf, r.chain.PosTable) <= 3*int(r.chain.C) {
+				fillRound = true
+			}
+		}
+		if len(distinctSel) > 1 {
+			ev.Class("seq:different-selections")
+		}
+		if len(cfgUsed) > 1 {
+			ev.Class("seq:config-change")
+			if rel == "disjoint" {
+				ev.Class("seq:disjoint-configs")
+			}
+		}
+		if sameCfgOtherSeed {
+			ev.Class("seq:same-config-other-seed")
+		}
+		if fillRound {
+			ev.Class("seq:has-fill-path-round")
+		}
+		ev.ClassN("retained:rounds", int64(len(rounds)))
+		ev.Case(len(distinctSel) > 1, shortDesc(full))
+	})
+}
+
+// dedupFill makes idx a list of `n` distinct values != MaxUint32 (keeping order), adding values of
+// residue class `res` mod 4 when duplicates had to be dropped.
+func dedupFill(idx []uint32, n int, res uint32) []uint32 {
+	seen := map[uint32]bool{}
+	out := make([]uint32, 0, n)
+	for _, x := range idx {
+		if x != math.MaxUint32 && !seen[x] && len(out) < n {
+			seen[x] = true
+			out = append(out, x)
+		}
+	}
+	for next := uint32(9000)*4 + res; len(out) < n; next += 4 {
+		if !seen[next] {
+			seen[next] = true
+			out = append(out, next)
+		}
+	}
+	return out
+}
+
+func seqInts(n int) []int {
+	out := make([]int, n)
+	for i := range out {
+		out[i] = i
+	}
+	return out
 }
